@@ -412,41 +412,78 @@ def r_grade_solvers(rep, f):
             rep.ok("R-GRADE-SCALE", "R-GRADE-SCALE:%s:absolute-floor" % fn, "no tolerance scale is floored or capped by an absolute constant", nontrivial=False)
         if not seen:
             rep.inconc("R-GRADE-SCALE", "R-GRADE-SCALE:%s" % fn, "no tolerance scale found")
-        # (b) accept operand
-        cond = None
-        acc = hk.accept_if
+        # (b) accept operand: every path variant that reaches the acceptance test has its own operand (a refined norm, a
+        # norm computed on another branch); each distinct one is graded
+        seen_E = set()
+        for tag, sx, hk in variants:
+            g = make_grader(sx)
+            if r_grade_accept(rep, f, fn, sx, hk, g, seen_E) == 'stop':
+                break
+        if not seen_E:
+            rep.inconc("R-GRADE", "R-GRADE:%s:accept-operand" % fn, "accept condition not found")
+
+
+def r_grade_accept(rep, f, fn, sx, hk, g, seen_E):
+    cond = None
+    acc = hk.accept_if
+    for ev in sx.trace:
+        if ev["kind"] == "if" and acc is not None and ev["node"] is acc:
+            cond = ev["cond"]
+    if cond is None:
+        # BDF: error_norm > 1.0
         for ev in sx.trace:
-            if ev["kind"] == "if" and acc is not None and ev["node"] is acc:
-                cond = ev["cond"]
-        if cond is None:
-            # BDF: error_norm > 1.0
-            for ev in sx.trace:
-                if ev["kind"] == "if" and isinstance(ev["cond"], Poly):
-                    a = ev["cond"].single_atom()
-                    if a and a in DEFS and DEFS[a][0] in ("gt", "ge") and isinstance(DEFS[a][1][1], Poly) and DEFS[a][1][1].const_value() == 1 \
-                            and tast.contains(ev["node"]["then"], lambda q: tast.is_field_write(q, "Steps::rejected")):
-                        cond = ev["cond"]
-        key = "R-GRADE:%s:accept-operand" % fn
-        if cond is None or cond.single_atom() not in DEFS:
-            rep.inconc("R-GRADE", key, "accept condition not found")
-            continue
-        op, xs = DEFS[cond.single_atom()]
-        E = xs[0] if not (isinstance(xs[0], Poly) and xs[0].is_const()) else xs[1]
-        g.issues.clear()
-        g.strict_sum = True      # an error norm divides each component by its own scale BEFORE summing
-        g.memo.clear()
-        ge = g.poly(E)
-        if ge == (0, 0):
-            rep.ok("R-GRADE", key, "the normalised error is homogeneous of degree 0 in the state scale and in the number of copies (RMS norm)")
-        elif ge == UNKNOWN:
-            rep.note("%s grade of the accept operand not determined (opaque: %s)" % (key, sorted(set(g.unknown_atoms))[:3]))
-            rep.ok("R-GRADE", key + ":partial", "no grade inconsistency found in the accept operand", nontrivial=False)
-        elif rk.imprecise_in_main(sx, hk):
-            rep.inconc("R-GRADE", key, "the accept operand is computed by a construct the interpreter cannot follow (%s)" % rk.imprecise_in_main(sx, hk)[0])
+            if ev["kind"] == "if" and isinstance(ev["cond"], Poly):
+                a = ev["cond"].single_atom()
+                if a and a in DEFS and DEFS[a][0] in ("gt", "ge") and isinstance(DEFS[a][1][1], Poly) and DEFS[a][1][1].const_value() == 1 \
+                        and tast.contains(ev["node"]["then"], lambda q: tast.is_field_write(q, "Steps::rejected")):
+                    cond = ev["cond"]
+    key = "R-GRADE:%s:accept-operand" % fn
+    if cond is None or cond.single_atom() not in DEFS:
+        return None
+    op, xs = DEFS[cond.single_atom()]
+    E = xs[0] if not (isinstance(xs[0], Poly) and xs[0].is_const()) else xs[1]
+    sig_E = re.sub(r"#\d+", "#", repr(E))
+    if sig_E in seen_E:
+        return None
+    if seen_E:
+        key = key + ":variant%d" % (len(seen_E) + 1)
+    seen_E.add(sig_E)
+    g.issues.clear()
+    g.strict_sum = True      # an error norm divides each component by its own scale BEFORE summing
+    g.memo.clear()
+    ge = g.poly(E)
+    if ge == (0, 0):
+        rep.ok("R-GRADE", key, "the normalised error is homogeneous of degree 0 in the state scale and in the number of copies (RMS norm)")
+    elif ge == UNKNOWN:
+        rep.note("%s grade of the accept operand not determined (opaque: %s)" % (key, sorted(set(g.unknown_atoms))[:3]))
+        rep.ok("R-GRADE", key + ":partial", "no grade inconsistency found in the accept operand", nontrivial=False)
+        # the degree in the number of COPIES does not need the opaque values: whatever a linear solve or a helper returns
+        # per component is the same in every copy (degree 0); only sums over the components and the length carry degree 1
+        g2 = make_grader(sx)
+        ag_, cg_ = g2.atom_grade, g2.call_grade
+
+        def flat(x):
+            if x == UNKNOWN:
+                return (Fraction(0), Fraction(0))
+            return (x[0], Fraction(0)) if isinstance(x, tuple) else x
+        g2.atom_grade = lambda a: flat(ag_(a))
+        g2.call_grade = lambda op, gs, args, atom: flat(cg_(op, gs, args, atom)) if cg_ is not None else (Fraction(0), Fraction(0))
+        gc = g2.poly(E)
+        kc = "R-GRADE:%s:accept-operand:copies" % fn
+        if isinstance(gc, tuple) and gc[0] == 0 or gc is None:
+            rep.ok("R-GRADE", kc, "the normalised error has degree 0 in the number of copies (sums over the components are divided by the length before the root)")
+        elif gc == UNKNOWN:
+            rep.note("%s degree in the number of copies not determined" % kc)
         else:
-            why = g.issues[-1][1] if g.issues else ""
-            rep.violation("R-GRADE", key, "the quantity compared with 1 in the accept test has grade %s%s: it changes when the state is rescaled or the system is duplicated"
-                          % (grade.fmt(ge), (" - " + why) if why else ""), (acc or hk.main_loop).get("sp"))
+            why = g2.issues[-1][1] if g2.issues else ""
+            rep.violation("R-GRADE", kc, "the quantity compared with 1 in the accept test has degree %s in the number of copies%s: duplicating the system changes which steps are accepted"
+                          % (gc[0] if isinstance(gc, tuple) else "that differs between its alternatives", (" - " + why) if why else ""), (acc or hk.main_loop).get("sp"))
+    elif rk.imprecise_in_main(sx, hk):
+        rep.inconc("R-GRADE", key, "the accept operand is computed by a construct the interpreter cannot follow (%s)" % rk.imprecise_in_main(sx, hk)[0])
+    else:
+        why = g.issues[-1][1] if g.issues else ""
+        rep.violation("R-GRADE", key, "the quantity compared with 1 in the accept test has grade %s%s: it changes when the state is rescaled or the system is duplicated"
+                      % (grade.fmt(ge), (" - " + why) if why else ""), (acc or hk.main_loop).get("sp"))
 
 
 def r_grade_branches(rep, f):
